@@ -34,6 +34,7 @@ type case15 struct {
 	Infer bool   `json:"infer"`
 	Law   string `json:"law,omitempty"` // which law the triple was built for: L1 (l,o,o) L2 (o,o,u) L3 (d,d,d) L4 one-sided; "" = none
 	Note  string `json:"note,omitempty"`
+	Pkg   *pkgCase15 `json:"pkg,omitempty"` // package-level case (harness/c15pkg.go)
 }
 
 func apply15(l, o, u *kyaml.RNode, infer bool) (cls string, out *kyaml.RNode, msg string) {
@@ -705,6 +706,7 @@ func tinyDoc15(v *g4) *g4 {
 }
 
 func runC15(r *Run, rng *Rng, tier string) error {
+	ensureSchema15()
 	nRandom := 900
 	if tier == "thorough" {
 		nRandom = 14000
@@ -774,6 +776,18 @@ func runC15(r *Run, rng *Rng, tier string) error {
 	}
 	for i := 0; i < nTyped; i++ {
 		runOne15(r, genTyped15(rng.Fork()), nil)
+	}
+	// primitive set lists of integers / booleans (custom kind Bar, see c15fam.go)
+	for i := 0; i < nTyped/4; i++ {
+		runOne15(r, genSetList15(rng.Fork()), nil)
+	}
+	// package level: filters.Merge3{...}.Merge() with option combinations
+	nPkg := 40
+	if tier == "thorough" {
+		nPkg = 300
+	}
+	for i := 0; i < nPkg; i++ {
+		runPkg15(r, genPkg15(rng.Fork()))
 	}
 	r.header += internHeader()
 	r.shard = 150
@@ -933,6 +947,19 @@ func replayC15(path string) (bool, string, error) {
 	}
 	if err := json.Unmarshal(data, &rp); err != nil {
 		return false, "", err
+	}
+	ensureSchema15()
+	if rp.Case.Pkg != nil {
+		known := knownClasses("C15")
+		bad := 0
+		detail := "package-level case"
+		for _, v := range lawsPkg15(*rp.Case.Pkg) {
+			if !known[v.Class] {
+				bad++
+			}
+			detail += fmt.Sprintf("\nLAW %s class=%s: %s", v.Law, v.Class, v.Detail)
+		}
+		return bad > 0, detail, nil
 	}
 	cls, out, msg := exec15(rp.Case)
 	res := "<nil>"
